@@ -194,6 +194,10 @@ class UserStringRepresenter:
         logger.info('Representing {} of class {}'.format(
             data, self.class_.__name__))
 
+        # PyYAML remembers the node made for this object under this key,
+        # and uses that node for any other references to the object
+        alias_key = dumper.alias_key
+
         # convert to a yaml.ScalarNode
         represented = dumper.represent_str(str(data))   # type: yaml.Node
 
@@ -208,6 +212,9 @@ class UserStringRepresenter:
                          ' check your _yatiml_sweeten() function.'
                          ).format(self.class_.__name__))
             represented = snode.yaml_node
+            if alias_key is not None:
+                # sweetening may have replaced the node
+                dumper.represented_objects[alias_key] = represented
 
         logger.debug('End representing {}'.format(data))
         return represented
